@@ -32,20 +32,18 @@ Definition w_version_2p63 :=
 Lemma version_2p63_differs : redis_run cfgS w_version_2p63 <> mem_run cfgS w_version_2p63.
 Proof. differ. Qed.
 
-(* GO, fixed in the model (fixes/C18-nohist-idempotent.patch): idempotent publish without
-   history -- the unfixed RedisBroker never reports Suppressed *)
+(* GO (finding nohist-idem): idempotent publish without history: Redis never reports Suppressed *)
 Definition w_nohist_idem :=
   [OpPublish "a" "x1" (nohist_k "k") "N0"; OpPublish "a" "x2" (nohist_k "k") "N1"].
-Lemma nohist_idem_agrees_fixed : redis_run cfgS w_nohist_idem = mem_run cfgS w_nohist_idem.
-Proof. vm_compute. reflexivity. Qed.
+Lemma nohist_idem_differs : redis_run cfgS w_nohist_idem <> mem_run cfgS w_nohist_idem.
+Proof. differ. Qed.
 
-(* GO, fixed in the model (fixes/C18-idem-cross-mode.patch): same idempotency key first without
-   then with history -- the unfixed RedisBroker returns "wrong Redis reply offset" *)
+(* GO (finding idem-cross-mode): same idempotency key first without then with history:
+   Redis returns "wrong Redis reply offset" *)
 Definition w_idem_cross :=
-  [OpPublish "a" "x1" (nohist_k "k") "N0"; OpPublish "a" "x2" (hpk "k") "N1";
-   OpPublish "a" "x3" (hpk "j") "N2"; OpPublish "a" "x4" (nohist_k "j") "N3"].
-Lemma idem_cross_agrees_fixed : redis_run cfgS w_idem_cross = mem_run cfgS w_idem_cross.
-Proof. vm_compute. reflexivity. Qed.
+  [OpPublish "a" "x1" (nohist_k "k") "N0"; OpPublish "a" "x2" (hpk "k") "N1"].
+Lemma idem_cross_differs : redis_run cfgS w_idem_cross <> mem_run cfgS w_idem_cross.
+Proof. differ. Qed.
 
 (* GO: reverse history since a position beyond the top: Redis returns the whole stream *)
 Definition w_reverse_beyond :=
@@ -76,11 +74,12 @@ Proof. differ. Qed.
 Definition w_list_version := [OpPublish "a" "x1" (hpv 5) "N0"; OpPublish "a" "x2" (hpv 3) "N1"].
 Lemma list_version_differs : redis_run cfgL w_list_version <> mem_run cfgL w_list_version.
 Proof. differ. Qed.
-(* GO, fixed in the model (fixes/C18-list-delta.patch): with lists the delta push carries the
-   PREFIXED previous list element; the unfixed handleRedisClientMessage fails to unmarshal it
-   and the second delta publication is never delivered *)
-Definition w_list_delta := [OpPublish "a" "x1" hpd "N0"; OpPublish "a" "x2" hpd "N1"; OpPublish "a" "x3" hpd "N2"].
-Lemma list_delta_agrees_fixed : redis_run cfgL w_list_delta = mem_run cfgL w_list_delta.
+(* GO (finding list-delta): with lists the delta push carries the PREFIXED previous list element,
+   which does not unmarshal: the second delta publication is never delivered *)
+Definition w_list_delta := [OpPublish "a" "x1" hpd "N0"; OpPublish "a" "x2" hpd "N1"].
+Lemma list_delta_differs : redis_run cfgL w_list_delta <> mem_run cfgL w_list_delta.
+Proof. differ. Qed.
+Lemma list_delta_second_not_delivered : snd (nth 1 (redis_run cfgL w_list_delta) (ResErr, [])) = [].
 Proof. vm_compute. reflexivity. Qed.
 (* GO: reverse iteration is not implemented for lists (documented in RedisBrokerConfig.UseLists) *)
 Definition w_list_reverse :=
